@@ -22,6 +22,14 @@ AllDevs == {"CondSameTypeNoConversion",   \* condexpr: `if (lt == rt) t = lt;` b
             "ConvertKeepsCompatible",     \* exprconvert(e, t) returns e (e->type unchanged) whenever typecompatible(e->type, t):
                                           \* an `enum eu` operand promoted/converted to its compatible type unsigned int
                                           \* keeps the type `enum eu` (shift, unary + -, ?: with a constant condition)
+            "ArrayQualOnArrayType",       \* qualifiers that reach an array type through a member access (`cs.arr` with
+                                          \* `const struct S cs`) or a typedef (`const A x`) are kept next to the array
+                                          \* type (expr->qual / decl->qual) instead of on its element type (6.7.3p9), so
+                                          \* `&cs.arr` is "const pointer-target, array of plain char" and is not compatible
+                                          \* with `const char (*)[3]`
+            "DerefDecayedArrayDropsQual", \* mkunaryexpr(TMUL) undoes a decay by returning the array expression itself with
+                                          \* type = element type; the element qualifiers (kept in the array type) are lost:
+                                          \* `*ca` with `const char ca[3]` has type char
             "SizeofSeesBitfield"}         \* exprconvert returns the EXPRBITFIELD node itself when no conversion is
                                           \* needed, so sizeof(+s.bf) / sizeof(1 ? s.bf : x) are refused as "bitfield expression"
 
@@ -164,7 +172,7 @@ M_charconsttype(prefix, targ) ==
 (* the type stored in struct expr for an operand: identifiers are decayed by primaryexpr,  *)
 (* qualifiers live in e->qual                                                              *)
 M_exprtype(x) ==
-  IF x.t.k = "arr" THEN Ptr(x.t.of)
+  IF x.t.k = "arr" THEN Ptr(Qual(x.t.of, x.t.q))        \* decay: mkpointertype(t->base, t->qual | tq)
   ELSE IF x.t.k = "fn" THEN Ptr(x.t)
   ELSE M_strip(x.t)
 
@@ -286,7 +294,11 @@ M_unaryexpr(op, x, targ, D) ==
        ELSE IF x.w # 0 THEN err
        ELSE Ptr(x.t)                                        \* mkpointertype(base->type, base->qual)
   ELSE IF op = "*" THEN
-       IF t.k # "ptr" THEN err ELSE t.to                    \* expr->qual = base->type->qual; then decay()
+       IF t.k # "ptr" THEN err
+       ELSE IF x.t.k = "arr" THEN                           \* base is a decay node: expr = base->base; expr->type = element type,
+            (IF "DerefDecayedArrayDropsQual" \in D          \* expr->qual stays that of the array expression
+             THEN [x.t.of EXCEPT !.q = x.t.q] ELSE Qual(x.t.of, x.t.q))
+       ELSE t.to                                            \* expr->qual = base->type->qual; then decay()
   ELSE IF op \in {"++pre", "--pre", "post++", "post--"} THEN
        IF ~x.lv THEN err ELSE IF "const" \in x.t.q THEN err ELSE t     \* mkincdecexpr: no type check at all
   ELSE err
@@ -297,7 +309,12 @@ M_exprconvert_same(x, t) == ~IsErr(t) /\ M_typecompatible(M_exprtype(x), t)
 M_sizeof_refuses(x, t, D) == "SizeofSeesBitfield" \in D /\ x.w # 0 /\ M_exprconvert_same(x, t)
 
 (* postfixexpr TPERIOD/TARROW: mkpointertype(m->type, tq | m->qual) then `*` *)
-M_member(m, sq) == Qual(m.t, sq)
+M_member(m, sq, D) ==
+  IF m.t.k = "arr" /\ "ArrayQualOnArrayType" \in D THEN [m.t EXCEPT !.q = sq] ELSE Qual(m.t, sq)
+(* generic(): first association with typecompatible(t, want) && qual == QUALNONE (more than one: error) *)
+M_genericsel(want, assocs) ==
+  LET ms == {i \in 1..Len(assocs) : assocs[i].q = {} /\ M_typecompatible(assocs[i], want)}
+  IN IF ms = {} THEN 0 ELSE IF Cardinality(ms) = 1 THEN CHOOSE i \in ms : TRUE ELSE -1
 
 (* exprassign(e, t) for t->kind == TYPEPOINTER, e not a null pointer constant: accepted? *)
 M_ptrassign(l, r) ==
